@@ -17,13 +17,14 @@ import (
 
 // c06 client record kinds
 var c06ClientKinds = []string{"ch_good", "ch_good", "ch_good", "ch_no_ech", "ch_other_id", "ch_other_suite", "ch_enc_nonempty", "ch_fresh_ctx", "ch_seq_skip",
-	"ch_sni_changed", "ch_alpn_changed", "ch_alpn_reordered", "ch_no_inner_ext", "ch_plain", "ccs", "ccs", "hs_other", "appdata", "alert"}
+	"ch_sni_changed", "ch_alpn_changed", "ch_alpn_reordered", "ch_no_inner_ext", "ch_outer_sni_changed", "ch_plain", "ccs", "ccs", "hs_other", "appdata", "alert"}
 var c06BackendKinds = []string{"hrr", "hrr", "hrr", "sh", "ccs", "appdata", "hs_other"}
 
 var c06RetryClass = map[string]string{
 	"ch_no_ech": "missing_extension", "ch_plain": "missing_extension",
 	"ch_other_id": "illegal_parameter", "ch_other_suite": "illegal_parameter", "ch_enc_nonempty": "illegal_parameter",
 	"ch_fresh_ctx": "decrypt_error", "ch_seq_skip": "decrypt_error",
+	"ch_outer_sni_changed": "illegal_parameter",
 	"ch_sni_changed": "illegal_parameter", "ch_alpn_changed": "illegal_parameter", "ch_alpn_reordered": "illegal_parameter", "ch_no_inner_ext": "illegal_parameter",
 }
 
@@ -38,7 +39,7 @@ func TestC06(t *testing.T) {
 	rec := ev.Get("C06")
 	rec.Rule("state machine over a Conn with an accepted first hello. Operations: client sends (well-formed retried hello sealed at the next sequence number, 11 ill-formed variants, plain hello, CCS, other handshake, application data, alert), backend queues (HRR, ServerHello, CCS, application data, other handshake) and flushes its pending bytes in drawn pieces, backend reads one record. Reference machine from the property: a ClientHello consumed while exactly one HRR has been completely written, no retry was processed and no client application data was seen is a retry (expected reconstructed inner, or the class of its defect, alert+close); every other record is forwarded unchanged. distinct = operation-kind sequence; non-trivial = history contains an HRR and a later ClientHello")
 	rec.Mandatory("ccs_between_hrr_and_hello", "hello_without_hrr", "hello_after_appdata", "hrr_split_across_writes", "retry_ok", "third_hello_forwarded",
-		"retry:ch_no_ech", "retry:ch_other_id", "retry:ch_other_suite", "retry:ch_enc_nonempty", "retry:ch_fresh_ctx", "retry:ch_seq_skip", "retry:ch_sni_changed", "retry:ch_alpn_changed", "retry:ch_no_inner_ext")
+		"retry:ch_no_ech", "retry:ch_other_id", "retry:ch_other_suite", "retry:ch_enc_nonempty", "retry:ch_fresh_ctx", "retry:ch_seq_skip", "retry:ch_sni_changed", "retry:ch_alpn_changed", "retry:ch_no_inner_ext", "retry:ch_outer_sni_changed")
 	rapid.Check(t, func(t *rapid.T) {
 		sc := drawSealed(t, false)
 		key := sc.Key
@@ -78,6 +79,10 @@ func TestC06(t *testing.T) {
 				out2.Exts = append(out2.Exts[:i], out2.Exts[i+1:]...)
 				r.bytes = hello.Record(22, 0x0303, out2.Message())
 				return r
+			case "ch_outer_sni_changed":
+				// authentic retried hello whose outer SNI is no longer the public name
+				i := out2.Find(hello.ExtSNI)
+				out2.Exts[i].Data = hello.SNIExt("not-the-public-name.example")
 			case "ch_sni_changed":
 				i := in2.Find(hello.ExtSNI)
 				in2.Exts[i].Data = hello.SNIExt("changed." + tp.InnerName[:min(len(tp.InnerName), 200)])
